@@ -98,7 +98,7 @@ InstsOf(s) == SelectSeq(s, IsInst)
 \* r.pre / r.post = [map: seq of entities, todo: seq of instances, round]
 StepFails(r) ==
     LET pm == NormSeq(r.pre.map) pt == NormSeq(r.pre.todo) IN
-    IF r.bad # "" THEN Fail("proj.lattice", r.bad)
+    IF r.bad # "" THEN Fail(r.badc, r.bad)
     ELSE IF r.a.op = "roundstart"
     THEN Need(SameBag(NBag(r.post.todo), NBag(InstsOf(pm))), "step.todo", 0)
          \o Need(SameBag(NBag(r.post.map), NBag(pm)), "step.map", 0)
@@ -122,6 +122,9 @@ RunFails(r) ==
                    [] OTHER -> r.outcome = "recursion", "run.outcome", e.left)
             \o Need(SameBag(SBag(r.final), SBag(e.ents)), "run.final", e.ents)
             \o Need(~SameBag(SBag(r.final), SBag(e.ents)) \/ SameBag(NBag(r.final), NBag(e.ents)), "run.fixup", e.ents)
+            \o (LET vf == Visited(t, NormSeq(r.ents), r.limit) IN
+                Need({r.loads[j][1] : j \in 1..Len(r.loads)} = vf /\ \A j \in 1..Len(r.loads) : r.loads[j][2] = 1,
+                     "run.cache", vf))
 
 Fails(r) == CASE r.k = "subst" -> SubstFails(r)
               [] r.k = "name" -> NameFails(r)
